@@ -40,6 +40,11 @@ def main():
     try:
         mod = load_family(fam)
         mod.run(ctx)
+        if ctx.tier == "thorough" and "coqchk" not in ctx.extra:
+            # independent re-check of the property's compiled proofs (and everything they depend on) with coqchk
+            pin = os.path.join(ctx.coqdir, "_CoqProject.in")
+            ns = [l.split()[2] for l in open(pin) if l.startswith("-Q")][0]
+            ctx.coqchk(ns, "Properties_" + a.property)
     except vlib.BuildError as e:
         ctx.broken_tie("harness/oracle build from /repo's working tree failed (the correspondence can no longer be run)", str(e)[-3000:])
     except Exception:
